@@ -296,6 +296,19 @@ class Run:
         self.vacuity.append({'name': name, 'verdict': v})
         return v == 'sat'
 
+    def guard(self, fn, *args, **kw):
+        """run one group of obligations; a group that cannot be encoded for the current tree (construct outside the model table, unexpected
+        shape of the MIR) is recorded as inconclusive and does not keep the remaining groups from being decided"""
+        from .interp import Unsupported
+        try:
+            return fn(self, *args, **kw)
+        except (Inconclusive, Unsupported) as e:
+            self.inconclusive.append('%s not encoded: %s: %s' % (getattr(fn, '__name__', 'group'), type(e).__name__, str(e)[:400]))
+        except (KeyError, IndexError, AttributeError, TypeError, ValueError, AssertionError) as e:
+            import traceback
+            self.inconclusive.append('%s aborted: %s: %s | %s' % (getattr(fn, '__name__', 'group'), type(e).__name__, str(e)[:200], traceback.format_exc().strip().splitlines()[-3][:200]))
+        return None
+
     # -- reporting
     def violation(self, what, replay_path):
         self.violations.append((what, replay_path))
